@@ -175,7 +175,7 @@ class EngineC18:
         if rel == "R5":
             return {"op": "R5", "perm_seed": g.randrange(1000)}
         if rel == "R6":
-            return {"op": "R6", "scale": g.choice([0.5, 2.0, 3.0, 10.0, 0.1, 7.25])}
+            return {"op": "R6", "scale": g.choice([0.5, 2.0, 3.0, 10.0, 0.1, 7.25, 1e-3, 1e-6, 1e-9, 1e4, 1e8])}
         if rel == "R7":
             p = list(range(N))
             for _ in range(10):
@@ -442,7 +442,18 @@ class EngineC18:
             # borderline-singular normal equations: which side of "exactly singular" a run lands on is rounding
             raise Skip("variant_singular_system")
         res.bump("solves")
-        res.sim_seconds += 0.0
+        if op == "R4" and alg == "gcp_lbfgsb":
+            # gcp_opt re-normalises a guess that is passed back, which is not idempotent in the last bits, and
+            # L-BFGS-B's line search takes discrete decisions: the final models may legitimately part company
+            # (observed 1.7e-2). What R4 states -- the returned guess is the start that was used, whatever the
+            # seed -- is therefore compared on the guess the second run reports.
+            ga = np.concatenate([np.asarray(f).reshape(-1) for f in base["guess_out"]])
+            gb = np.concatenate([np.asarray(f).reshape(-1) for f in other["guess_out"]])
+            dg = self._rel(ga, gb)
+            res.bump("pairs_compared")
+            if not (dg <= 1e-12):
+                return V("same_model", f"returned initial guess passed back under another seed is not the guess used: relative difference {dg:.3e}")
+            return None
         a = base["full"] * scale
         b = other["full"]
         d = self._rel(a, b)
